@@ -92,6 +92,11 @@ def make_bases(R):
     add("s390", "s390dump", [P("s390")], [dg.c03_write_s390(P("s390"))], "write_s390()")
     add("s390os", "s390dump", [P("s390os")], [dg.c03_write_s390os(P("s390os"))],
         "c03_write_s390os(): s390x dump whose lowcore points to an os_info page and a VMCOREINFO note (parsed when addrxlat.ostype is set)")
+    # the legacy path of the same set-up: no os_info, the lowcore points to a VMCOREINFO ELF note in dump memory (stand-alone dump and ELF core)
+    add("s390lc", "s390dump", [P("s390lc")], [dg.c03_write_s390os(P("s390lc"), os_info=False)],
+        "c03_write_s390os(os_info=False): s390x dump whose lowcore has a NULL os_info pointer and points to a VMCOREINFO note (LC_VMCORE_INFO)")
+    add("elfs390lc", "elf", [P("elfs390lc")], [dg.c03_s390x_elf_lowcore(P("elfs390lc"))],
+        "c03_s390x_elf_lowcore(): big-endian s390x ELF core without notes whose lowcore (NULL os_info) points to a VMCOREINFO note in a PT_LOAD")
     # ---- hand-made content (no field table: offered as they are, plus truncations of the small ones)
     def special(name, fmt, path, gen, bounds=()):
         size = os.path.getsize(path)
@@ -237,6 +242,29 @@ def gen_cases(R, bases):
             continue
         mk(b, [(s1[1], "p", s1[3], enc(s1[7], s1[4], s1[5])), (fi2, "p", off2, enc(v2, w2, be2))], "double",
            "%s: %s %#x -> %#x and %s %#x -> %#x" % (b.name, s1[2], s1[6], s1[7], name2, o2, v2))
+    # 3b. every pair of fields of one small descriptor (both sizes of a note header, size and flags of a page descriptor ...): the
+    # layout of what is allocated and read for a descriptor depends on its fields together.  Quick tier: note headers with the
+    # value classes {0, 1, orig-1, max}; thorough tier: every descriptor of up to 4 fields with every value class
+    for b in bases:
+        for fi, lay in enumerate(b.layouts):
+            groups = {}
+            for f in lay["fields"]:
+                if "." in f[0]:
+                    groups.setdefault(f[0].split(".")[0], []).append(f)
+            for g, fs in groups.items():
+                if not 2 <= len(fs) <= 4 or (R.tier == "quick" and not g.startswith("note")):
+                    continue
+                for i in range(len(fs)):
+                    for j in range(i + 1, len(fs)):
+                        (n1, o1, w1, e1), (n2, o2, w2, e2) = fs[i], fs[j]
+                        v1o, v2o = get_field(b.data[fi], o1, w1, e1), get_field(b.data[fi], o2, w2, e2)
+                        def classes(o, w):
+                            m = (1 << (8 * w)) - 1
+                            return field_values(o, w) if R.tier != "quick" else [v for v in dict.fromkeys([0, 1, (o - 1) & m, m]) if v != o]
+                        for v1 in classes(v1o, w1):
+                            for v2 in classes(v2o, w2):
+                                mk(b, [(fi, "p", o1, enc(v1, w1, e1)), (fi, "p", o2, enc(v2, w2, e2))], "pair",
+                                   "%s: %s %#x -> %#x and %s %#x -> %#x" % (b.name, n1, v1o, v1, n2, v2o, v2))
     # 4. field corruption combined with truncation / extension (sampled)
     for _ in range(300 if R.tier == "quick" else 6000):
         s1 = rng.choice(singles)
